@@ -70,7 +70,7 @@ Lemma fold_ostep_In y bs : forall l,
 Proof.
   induction bs as [|b t IH]; intros l; cbn [fold_left].
   - split; [auto|]. intros [H|(b & [] & _)]; exact H.
-  - rewrite IH. unfold ostep at 2. split.
+  - rewrite IH. unfold ostep. split.
     + intros [H|(b' & Hb & E)].
       * destruct (f b) as [a|] eqn:Fb; [|auto].
         apply set_add_In in H as [->|H]; [|auto]. right. exists b. split; [left; reflexivity | exact Fb].
